@@ -150,6 +150,9 @@ func runC10(p *core.Program, r *core.Report) {
 				n := 0
 				snapshot := strings.HasPrefix(fl.FI.Obj.Name(), "Size") || strings.HasPrefix(fl.FI.Obj.Name(), "Len") || strings.HasPrefix(fl.FI.Obj.Name(), "IsEmpty")
 				for _, ac := range fl.Accesses {
+					if ac.Alias && !tl.ElemWritten[ac.Field] {
+						continue // the map is replaced, never written in place: a snapshot reference is safe to read
+					}
 					if !guarded[ac.Field] {
 						continue
 					}
@@ -164,6 +167,39 @@ func runC10(p *core.Program, r *core.Report) {
 						}
 						bad = append(bad, w+" of "+ac.Field)
 					}
+				}
+				// accesses made on this method's behalf by same-receiver helpers called without the
+				// mutex (this.IsEmpty() before Lock is the same unlocked read as this.count == 0)
+				if !snapshot {
+					var via func(f *locks.FuncLocks, depth int, seen map[*types.Func]bool)
+					via = func(f *locks.FuncLocks, depth int, seen map[*types.Func]bool) {
+						for _, c := range f.Calls {
+							if c.Held == locks.Yes || seen[c.Callee] || depth > 3 {
+								continue
+							}
+							cf := tl.Funcs[c.Callee]
+							if cf == nil || cf.EntryHeld {
+								continue
+							}
+							seen[c.Callee] = true
+							for _, ac := range cf.Accesses {
+								if ac.Alias && !tl.ElemWritten[ac.Field] {
+									continue // the map is replaced, never written in place: a snapshot reference is safe to read
+								}
+								if !guarded[ac.Field] || ac.Held == locks.Yes {
+									continue
+								}
+								n++
+								w := "read"
+								if ac.Write {
+									w = "write"
+								}
+								bad = append(bad, w+" of "+ac.Field+" (in "+c.Callee.Name()+"(), called without the mutex)")
+							}
+							via(cf, depth+1, seen)
+						}
+					}
+					via(fl, 0, map[*types.Func]bool{fl.FI.Obj: true})
 				}
 				isPoint := c10PointOp.MatchString(fl.FI.Obj.Name()) && !c10NotPoint.MatchString(fl.FI.Obj.Name())
 				if n > 0 {
@@ -195,6 +231,9 @@ func runC10(p *core.Program, r *core.Report) {
 			}
 			mut := false
 			for _, ac := range fl.Accesses {
+				if ac.Alias && !tl.ElemWritten[ac.Field] {
+					continue // the map is replaced, never written in place: a snapshot reference is safe to read
+				}
 				if guarded[ac.Field] {
 					mut = true
 				}
@@ -259,6 +298,9 @@ func guardedFields(tl *locks.TypeLocks) map[string]bool {
 			continue
 		}
 		for _, ac := range fl.Accesses {
+			if ac.Alias && !tl.ElemWritten[ac.Field] {
+				continue // the map is replaced, never written in place: a snapshot reference is safe to read
+			}
 			if ac.Write {
 				out[ac.Field] = true
 			}
